@@ -219,4 +219,31 @@ theorem loop_refines (hpct : '%' ∉ cfg.conv) : ∀ (segs : List Seg), wfSegs c
         | raised e => exact ⟨_, rfl, hm1, hm2⟩
         | oob => exact ⟨_, rfl, hm1, hm2⟩
 
+theorem length_le_render {conv : Str} : ∀ segs : List Seg, wfSegs conv segs = true → segs.length ≤ (render segs).length := by
+  intro segs
+  induction segs with
+  | nil => intro _; simp
+  | cons s r ih =>
+    intro hwf
+    obtain ⟨hs, hr, _⟩ := wfSegs_cons hwf
+    have := text_length_pos hs
+    have := ih hr
+    rw [render_cons]; simp; omega
+
+/-- `print_to_with` on a well-formed format = the reference semantics of its segments; marks within the buffers -/
+theorem printToWith_refines (hpct : '%' ∉ cfg.conv) (segs : List Seg) (hwf : wfSegs cfg.conv segs = true) (o : Out) :
+    ∃ mk', printToWith cfg prim shw (render segs) args o
+        = ⟨(refRun cfg prim shw args segs 0 o).1, (refRun cfg prim shw args segs 0 o).2, mk'⟩
+      ∧ mk'.rdMax ≤ (render segs).length ∧ mk'.wrMax ≤ (render segs).length := by
+  have hlen := length_le_render segs hwf
+  obtain ⟨mk', h, h1, h2⟩ := loop_refines cfg prim shw args hpct segs hwf (render segs) []
+    ((render segs).length + 1) 0 o ⟨0, 0⟩ (by simp) (by omega) (by simp) (by simp)
+  simp only [List.length_nil] at h
+  exact ⟨mk', by simp [printToWith, h], h1, h2⟩
+
+theorem printToWith_pair (hpct : '%' ∉ cfg.conv) (segs : List Seg) (hwf : wfSegs cfg.conv segs = true) (o : Out) :
+    (printToWith cfg prim shw (render segs) args o).pair = refRun cfg prim shw args segs 0 o := by
+  obtain ⟨mk', h, _, _⟩ := printToWith_refines cfg prim shw args hpct segs hwf o
+  simp [h, Result.pair]
+
 end Cello.Fmt
